@@ -13,7 +13,7 @@ open Base
 
 /-- `cs` is a way of cutting `xs` into consecutive non-empty chunks -/
 def IsChunking {α} (xs : List α) (cs : List (List α)) : Prop :=
-  cs.flatten = xs ∧ ∀ c ∈ cs, c ≠ []
+  cs.flatten = xs
 
 /-! ### `streamable(reduction)(func)`: map `func` over the chunks, then reduce -/
 
@@ -126,14 +126,21 @@ def sliceGroups [Inhabited α] (key : α → κ) (c : List α) (bounds : List Na
 
 /-- `groupby` on one chunk. `fast` = the key column's type takes the code's shortcut
 (`EncodedArray`, or ragged with equal first/last row lengths) when first key = last key:
-then the whole chunk is returned as one group. An empty chunk raises (none). -/
+then the whole chunk is returned as one group. An empty chunk has no groups (repaired code,
+5241510: `if len(data) == 0: return grouped_stream(iter(()))`; the shipped code raised, `groupbyChunkOld`). -/
 def groupbyChunk [Inhabited α] (fast : Bool) (key : α → κ) (c : List α) : Option (List (κ × List α)) :=
   match c with
-  | [] => none
+  | [] => some []
   | _ =>
     let ks := c.map key
     if fast && decide (ks.head? = ks.getLast?) then some [(key c[0]!, c.drop 0)]
     else some (sliceGroups key c (0 :: changePoints ks ++ [c.length]))
+
+/-- `groupby` as shipped: an empty chunk raised (`keys[-1]` / the `np.diff(changes) > 0` assertion) -/
+def groupbyChunkOld [Inhabited α] (fast : Bool) (key : α → κ) (c : List α) : Option (List (κ × List α)) :=
+  match c with
+  | [] => none
+  | _ => groupbyChunk fast key c
 
 /-- `itertools.groupby(chain.from_iterable(groups), key=fst)` + `np.concatenate` of each run
 (specified external: consecutive equal keys are merged) -/
